@@ -5,3 +5,5 @@ import Rp2.Props.C13
 #print axioms Rp2.C13.rows_once
 #print axioms Rp2.C13.model_transactions_once
 #print axioms Rp2.C13.model_report_always_generated
+#print axioms Rp2.C13.lot_labels
+#print axioms Rp2.C13.model_running_sums_over_whole_history
